@@ -154,11 +154,14 @@ def regular_case(draw):
     tau = draw(st.one_of(st.sampled_from([0.5, 1.0, 2.0]), st.floats(0.1, 3.0, allow_nan=False)))
     T = min(draw(st.sampled_from([1.0, 3.0, 10.0])), 3.0 / (tau * d))
     return {'entry': 'x', 'gc': gc, 'mode': 'rho', 'tau': tau, 'gamma': draw(st.one_of(st.sampled_from([0.5, 1.0]), st.floats(0.1, 3.0, allow_nan=False))),
-            'rho': draw(st.sampled_from([0.01, 0.05, 0.1, 0.25, 0.5, 0.6])), 'p': 0.5, 'tmin': 0, 'tmax': T, 'tcount': 21,
+            'rho': draw(st.sampled_from([0.01, 0.05, 0.1, 0.25, 0.5, 0.6])), 'p': 0.5, 'tmin': 0, 'tmax': T, 'tcount': 21, 'shift': draw(st.sampled_from([0, 0, -1.5, 2.0, 3.25])),
             'dtmin': 0, 'dtmax': 3, 'I0': [], 'R0': [], 'model': draw(st.sampled_from(['SIS', 'SIR'])), 'd': d}
 
 
 def prop_regular(case):
+    case = dict(case)
+    case['tmin'] = case['tmin'] + case.get('shift', 0)     # the reporting window may start anywhere (autonomous systems)
+    case['tmax'] = case['tmax'] + case.get('shift', 0)
     model = case['model']
     N = len(case['gc']['nodes'])
     fails = []
@@ -171,7 +174,7 @@ def prop_regular(case):
     if ref is not None:
         frac = ref[2][-1] / N if model == 'SIS' else (ref[2][-1] + ref[3][-1]) / N
         nt = 0.03 <= frac <= 0.97
-    return Result(fails, nontrivial=nt and case['d'] >= 2, classes=[model, 'd=%d' % case['d']])
+    return Result(fails, nontrivial=nt and case['d'] >= 2, classes=[model, 'd=%d' % case['d']] + (['tmin!=0'] if case['tmin'] != 0 else []))
 
 
 def replay(ctx, sub, case):
